@@ -1,16 +1,21 @@
 import SamplyModel.Proto
-import SamplyModel.Model.Symbolicate
+import SamplyModel.Model.SymbolicateFront
 /-!
 Line protocol for C07 (`/symbolicate/v5`).
 
 ops (strings are hex-encoded UTF-8, `-` = empty string, `none` = absent):
 
     world <entry>*                        line 1: the symbol files the harness serves (ignored here)
-    form jobs|single                      line 2: with / without the `jobs` wrapper
+    form jobs|single|both                 line 2: with / without the `jobs` wrapper; `both` = the first `job`
+                                          block is the top-level memoryMap/stacks, the others are the `jobs` list
+    spell <k> / warm <k>                  how the harness spells the JSON body / which request it sends first on
+                                          the same symbol manager (no meaning for model and judge: ignored)
     job                                   starts a job
     mod <debugName> <breakpadId>          one memory-map entry of the current job
     stack <moduleIndex>,<address>*        one stack of the current job (JSON integers, may be negative / huge)
     lib <debugName> <breakpadId> ok | err <ErrorName>                       oracle: load result of the library
+          (`err InvalidBreakpadId` = the harness's own `DebugId::from_breakpad` refused the id, nothing was
+          loaded; model and judge decide id syntax themselves and only cross-check this verdict)
     addr <debugName> <breakpadId> <a> none                                  oracle: direct lookup of address a
     addr <debugName> <breakpadId> <a> sym <start> <size|none> <name> <none|avail|ext> <frame>*
           frame = <function|none>;<rawPath|none>;<mappedPath|none>;<line|none>   (innermost first;
@@ -18,7 +23,7 @@ ops (strings are hex-encoded UTF-8, `-` = empty string, `none` = absent):
 
 out (implementation and model):
 
-    error parse | error bad-index | error other:<hex> | panic | incomplete-oracle | bad-op
+    error parse | error bad-index | error other:<hex> | panic | incomplete-oracle | bad-op | id-syntax-mismatch
     result <j> / found <key> <true|false> (sorted) / merr <key> <ErrorName,…> (sorted) / stack <s> <n> /
     frame <frame> <module_offset> <module> none
     frame <frame> <module_offset> <module> sym <function> <function_offset> <function_size|none> <file|none> <line|none> <#inlines>
@@ -40,13 +45,18 @@ def optHex : Option String → String
 
 def parseOptStr (t : String) : Option String := if t = "none" then none else some (unhex t)
 
+abbrev LibKey := String × Option DebugId
+
+def libKey (name id : String) : LibKey := (name, toDebugIdChars id.toList)
+
 /-- oracle tables as written in the ops -/
 structure Ops where
   form : Option String := none
   /-- jobs in reverse order; memory map and stacks of each job in reverse order -/
   jobsRev : List RawJob := []
-  libs : List (Lib × Option String) := []
-  addrs : List ((Lib × Nat) × Option AddrInfo) := []
+  /-- keyed by what the loader is given: debug name + parsed `DebugId` (`none` = malformed id) -/
+  libs : List (LibKey × Option String) := []
+  addrs : List ((Nat × LibKey) × Option AddrInfo) := []
   bad : Bool := false
 
 def parseFrameTok (t : String) : Option Frame :=
@@ -71,6 +81,8 @@ def stepOp (st : Ops) (l : String) : Ops :=
   match words l with
   | "world" :: _ => st
   | ["form", f] => { st with form := some f }
+  | ["spell", _] => st
+  | ["warm", _] => st
   | ["job"] => { st with jobsRev := ⟨[], []⟩ :: st.jobsRev }
   | ["mod", n, i] =>
     match st.jobsRev with
@@ -80,11 +92,11 @@ def stepOp (st : Ops) (l : String) : Ops :=
     match st.jobsRev, toks.mapM parsePair with
     | j :: rest, some ps => { st with jobsRev := { j with stacks := ps :: j.stacks } :: rest }
     | _, _ => { st with bad := true }
-  | ["lib", n, i, "ok"] => { st with libs := (⟨unhex n, unhex i⟩, none) :: st.libs }
-  | ["lib", n, i, "err", e] => { st with libs := (⟨unhex n, unhex i⟩, some e) :: st.libs }
+  | ["lib", n, i, "ok"] => { st with libs := (libKey (unhex n) (unhex i), none) :: st.libs }
+  | ["lib", n, i, "err", e] => { st with libs := (libKey (unhex n) (unhex i), some e) :: st.libs }
   | ["addr", n, i, a, "none"] =>
     match a.toNat? with
-    | some a => { st with addrs := ((⟨unhex n, unhex i⟩, a), none) :: st.addrs }
+    | some a => { st with addrs := ((a, libKey (unhex n) (unhex i)), none) :: st.addrs }
     | none => { st with bad := true }
   | "addr" :: n :: i :: a :: "sym" :: sa :: sz :: nm :: kind :: ftoks =>
     match a.toNat?, sa.toNat?, ftoks.mapM parseFrameTok with
@@ -98,7 +110,7 @@ def stepOp (st : Ops) (l : String) : Ops :=
         else none
       match size?, fr? with
       | some size, some fr =>
-        { st with addrs := ((⟨unhex n, unhex i⟩, a), some ⟨sa, size, unhex nm, fr⟩) :: st.addrs }
+        { st with addrs := ((a, libKey (unhex n) (unhex i)), some ⟨sa, size, unhex nm, fr⟩) :: st.addrs }
       | _, _ => { st with bad := true }
     | _, _, _ => { st with bad := true }
   | [] => st
@@ -106,20 +118,36 @@ def stepOp (st : Ops) (l : String) : Ops :=
 
 def parseOps (ls : List String) : Ops := ls.foldl stepOp {}
 
-def Ops.raw (o : Ops) : Option RawRequest :=
+def Ops.raw (o : Ops) : Option RawBody :=
   let jobs := o.jobsRev.reverse.map fun j => (⟨j.memoryMap.reverse, j.stacks.reverse⟩ : RawJob)
   match o.form, jobs with
-  | some "jobs", js => some (.withJobsList js)
-  | some "single", [j] => some (.justOneJob j)
+  | some "jobs", js => some ⟨some js, none⟩
+  | some "single", [j] => some ⟨none, some j⟩
+  | some "both", j :: js => some ⟨some js, some j⟩
   | _, _ => none
 
-def Ops.look (o : Ops) : Look := fun lib =>
-  match alookup o.libs lib with
+/-- the loader part of the oracle: what the `lib` / `addr` lines say for (debug name, `DebugId`) -/
+def Ops.load (o : Ops) : Load := fun name d =>
+  match alookup o.libs (name, some d) with
   | some (some e) => .error ⟨e, ""⟩
   | _ => .ok fun a =>
-    match alookup o.addrs (lib, a) with
+    match alookup o.addrs (a, name, some d) with
     | some r => r
     | none => none
+
+/-- the model's oracle: `to_debug_id` (modelled) in front of the loader table -/
+def Ops.look (o : Ops) : Look := lookOf o.load
+
+/-- the judge's reference, from the specification side: a malformed id (declarative `BreakpadIdOk`) is
+`InvalidBreakpadId`, a well-formed one is looked up under the `DebugId` its digits denote -/
+def Ops.specLook (o : Ops) : Look := fun lib =>
+  if BreakpadIdOk lib.breakpadId.toList then o.load lib.debugName (breakpadIdValue lib.breakpadId.toList)
+  else .error (invalidBreakpadId lib.breakpadId)
+
+/-- the harness's `DebugId::from_breakpad` (+ nil test) and the modelled `to_debug_id` disagree on some id:
+a `lib … err InvalidBreakpadId` line for an id the model parses -/
+def Ops.idMismatch (o : Ops) : Bool :=
+  o.libs.any fun (k, st) => k.2.isSome && st == some "InvalidBreakpadId"
 
 /-- every (library, address) pair the request asks for has an oracle entry -/
 def Ops.complete (o : Ops) (req : Request) : Bool :=
@@ -127,10 +155,13 @@ def Ops.complete (o : Ops) (req : Request) : Bool :=
     match job.memoryMap[fr.moduleIndex]? with
     | none => true
     | some lib =>
-      match alookup o.libs lib with
-      | none => false
-      | some (some _) => true
-      | some none => (alookup o.addrs (lib, fr.address)).isSome
+      match toDebugIdChars lib.breakpadId.toList with
+      | none => true
+      | some d =>
+        match alookup o.libs (lib.debugName, some d) with
+        | none => false
+        | some (some _) => true
+        | some none => (alookup o.addrs (fr.address, lib.debugName, some d)).isSome
 
 /-! ### printing a response -/
 
@@ -178,9 +209,10 @@ def model (ls : List String) : List String :=
   match o.raw with
   | none => ["bad-op"]
   | some raw =>
-    match decode raw with
+    match decodeBody raw with
     | none => ["error parse"]
     | some req =>
+      if o.idMismatch then ["id-syntax-mismatch"] else
       if decide (AllIndicesValid req) && !o.complete req then ["incomplete-oracle"] else
       match queryApi o.look id req with
       | .ok resp => showResponse resp
@@ -243,7 +275,9 @@ def isSynthetic (ops : List String) (lib : Lib) : Bool :=
   | w :: _ =>
     (words w).any fun t =>
       match t.splitOn ":" with
-      | "syn" :: n :: i :: _ => unhex n = lib.debugName && (unhex i).toUpper = lib.breakpadId.toUpper
+      | "syn" :: n :: i :: _ =>
+        unhex n = lib.debugName && (toDebugIdChars (unhex i).toList).isSome &&
+          toDebugIdChars (unhex i).toList == toDebugIdChars lib.breakpadId.toList
       | _ => false
   | [] => false
 
@@ -322,7 +356,9 @@ def judge (ops impl : List String) : Bool × String :=
   | some raw =>
     if impl.contains "stale-oracle" then
       (false, "stale-oracle: the oracle lines of the ops are not what the direct lookups return now") else
-    match decode raw with
+    if o.idMismatch then
+      (false, "id-syntax: DebugId::from_breakpad refused an id that the specification calls well-formed") else
+    match decodeBody raw with
     | none =>
       if impl = ["error parse"] then (true, "ok")
       else (false, s!"bad-index: a frame number does not fit u32, want [error parse], got [{" | ".intercalate (impl.take 3)}]")
@@ -331,10 +367,10 @@ def judge (ops impl : List String) : Bool × String :=
         if impl = ["error bad-index"] then (true, "ok")
         else (false, s!"bad-index: a module index is outside its memory map, want [error bad-index], got [{" | ".intercalate (impl.take 3)}]")
       else if !o.complete req then (true, "skipped: oracle incomplete for this request")
-      else if !(contractBreakers o.look req).isEmpty then
+      else if !(contractBreakers o.specLook req).isEmpty then
         -- excluded point of C07_total. Only a synthetic symbol map may do that (model and code are then
         -- compared on `panic`); a real symbol file doing it makes the API panic on a well-formed request.
-        if (contractBreakers o.look req).all (isSynthetic ops) then
+        if (contractBreakers o.specLook req).all (isSynthetic ops) then
           (true, "skipped: a synthetic symbol map breaks the lookup contract (excluded point)")
         else (false, "no-panic: the direct lookup of a real symbol file reports a symbol start above the address or an empty frame list; the implementation cannot answer this frame")
       else if impl.contains "panic" then (false, "no-panic: implementation panicked")
@@ -343,9 +379,9 @@ def judge (ops impl : List String) : Bool × String :=
           if (words l).head? = some "error" then (false, s!"shape: well-formed request answered with [{l}]")
           else match parseImpl impl with
             | none => (false, "shape: unparsable implementation output")
-            | some rs => judgeJobs o.look req 0 req.jobs rs
+            | some rs => judgeJobs o.specLook req 0 req.jobs rs
         | [] =>
           -- no output lines = a response without results
-          judgeJobs o.look req 0 req.jobs []
+          judgeJobs o.specLook req 0 req.jobs []
 
 end C07
